@@ -494,6 +494,24 @@ pub(crate) fn co_get_handle(co: &CoroutineImpl) -> Coroutine {
     local.get_co().clone()
 }
 
+/// an owned handle that keeps the cancel data alive: an event source that still
+/// uses the cancel data after it has published the coroutine must hold one, the
+/// coroutine may be resumed by another thread at once and run to its end
+pub(crate) struct CancelHandle(Coroutine);
+
+impl std::ops::Deref for CancelHandle {
+    type Target = Cancel;
+    fn deref(&self) -> &Cancel {
+        &self.0.inner.cancel
+    }
+}
+
+#[inline]
+pub(crate) fn co_cancel_handle(co: &CoroutineImpl) -> CancelHandle {
+    let local = unsafe { &*get_co_local(co) };
+    CancelHandle(local.get_co().clone())
+}
+
 /// timeout block the current coroutine until it's get unparked
 #[inline]
 fn park_timeout_impl(dur: Option<Duration>) {
